@@ -2,8 +2,8 @@
 package c01
 
 import (
-	"math/big"
 	"fmt"
+	"math/big"
 	"sort"
 	"strings"
 
